@@ -272,6 +272,13 @@ pub fn match_bed_and_breakfast(
                     continue;
                 }
 
+                // A zero split factor between the disposal and this purchase (SPLIT RATIO 0, or
+                // factors whose product underflows to zero): none of the disposal's shares
+                // correspond to it, and converting between the two dates would divide by zero.
+                if cumulative_ratio_effect.is_zero() {
+                    continue;
+                }
+
                 let (matched_qty_at_sell_time, matched_qty_at_buy_time) =
                     matched_quantities_with_split_ratio(
                         *remaining,
